@@ -26,13 +26,13 @@ structure EntParams where
   signers : List AddrTok
   deriving DecidableEq, Repr, Inhabited
 
-/-- `Params.Validate()` of x/enterprise — note `len(entSigners) < int(p.MinAccepts)` compares as Go `int` -/
+/-- `Params.Validate()` of x/enterprise (`uint64(len(entSigners)) < p.MinAccepts`) -/
 def EntParams.validate (p : EntParams) : Bool :=
   !(isBlank p.denom) && validDenom p.denom &&
   decide (p.minAccepts ≠ 0) && decide (p.decisionLimit ≠ 0) &&
   decide (p.signers ≠ [AddrTok.empty]) &&                      -- len(v) == 0
   p.signers.all (fun t => t.decode.isSome) &&
-  !(decide ((p.signers.length : Int) < intOfU64 p.minAccepts))
+  !(decide (p.signers.length < p.minAccepts))
 
 /-- decodable signer addresses (`GetParamEntSignersAsAddressArray`) -/
 def EntParams.signerAddrs (p : EntParams) : List Addr := p.signers.filterMap AddrTok.decode
@@ -120,8 +120,8 @@ def decide_ (e : EntState) (nowSec : Nat) (poId : Nat) (decision : Nat) (signerT
     if !validAcceptReject decision then throw (entErr 5)
     if po.status = stNil then throw (entErr 4)
     if po.status ≠ stRaised then throw (entErr 3)
-    -- duplicate check compares the *strings*
-    if po.decisions.any (fun d => signerT = d.signer) then throw (entErr 9)
+    -- duplicate check: same string, or the stored signer decodes to the same address
+    if po.decisions.any (fun d => signerT = d.signer ∨ d.signer.decode = some signer) then throw (entErr 9)
     let d : Decision := { signer := AddrTok.canon signer, decision := decision, time := nowSec }
     let po' := { po with decisions := po.decisions ++ [d] }
     pure { e with orders := AL.insert e.orders poId po' }
